@@ -6,6 +6,8 @@ injected inside the start-up and tear-down windows: listener creation, service_i
 threads against the standalone servers / NetworkServerThread with injected thread switches. Every call and return is logged on
 one event counter; a history checker applies interval rules (a)-(g) of DESIGN.md section 3 / C18; the virtual loop going quiescent
 with a pending call is the deadlock verdict; for threads a call exceeding its watchdog triggers two stack samples 3 s apart.
+Template histories add systematic grids (tear-down / start-up offsets, floods, serve-echo-shutdown repeated, restart on a fixed
+address with the previous run's connections in TIME_WAIT); directed preemption pauses one thread at each line of the lifecycle functions.
 """
 
 from __future__ import annotations
